@@ -16,7 +16,10 @@ EXPLANATION = (
     '-- in particular no TagCommandError (a failed read must surface as None); R2 in every _read_ndef_data the value that '
     'becomes the message length (TLV length, Ln, NLEN) is compared with, or clamped by, the data-area size / capacity before '
     'the message is accepted; R3 loop progress: every loop of the read path driven by tag data advances a position by at '
-    'least one per cycle, consumes a bounded range, or leaves when a command returned no data.  The number of commands for a '
+    'least one per cycle, consumes a bounded range, or leaves when a command returned no data; R4 buffer rules: tag controlled byte '
+    'strings (ATS, ATTRIB / discovery responses, Type 3 response frames, ISO-DEP blocks, READ BINARY answers, control TLV values) are '
+    'indexed, destructured or struct-unpacked only behind a length guard (lower bound dataflow, exact length for whole-buffer unpack) '
+    'or inside a handler; unguarded reads are implicit raise sites fed to R1.  The number of commands for a '
     'given image and that all octets lie inside the area beyond the R2 necessary condition are not decided.')
 
 NDEF_ATTRS = ('has_changed', 'length', 'capacity', 'octets', 'is_readable', 'is_writeable')
@@ -36,8 +39,16 @@ def mapping_total(prog, qname):
 
 
 def rule_escape(report, prog, res):
+    from . import c08buf
+    implicit_sites = {}
+    c08buf.run(report, prog, res, implicit_sites)
+    report.stats['implicit_raise_sites'] = {q: [t.split(' [')[0] for n_, e, t in v] for q, v in sorted(implicit_sites.items())}
+
+    def implicit(func, ctx):
+        return implicit_sites.get(func.qname, [])
     bad = {}
     n = 0
+    n_sites = [0]
     for c in tag_classes(prog):
         ndef_cls = None
         for k in prog.mro(c):
@@ -49,7 +60,7 @@ def rule_escape(report, prog, res):
             ents.append(('ndef.' + a, prog.lookup(ndef_cls, a), Ctx(ndef_cls, c)))
         for name, f, ctx in ents:
             n += 1
-            esc = Escape(prog, res, boundaries=BOUND)
+            esc = Escape(prog, res, boundaries=BOUND, implicit=implicit)
             for it in items_sorted(esc.esc(f, ctx)):
                 if it.exc == 'OSError':
                     continue
@@ -65,16 +76,44 @@ def rule_escape(report, prog, res):
                     where = fr[-1].split(' ', 1)[1] if fr else it.site_func
                     bad.setdefault((it.exc.split('.')[-1], 'unguarded in', where), []).append(('%s.%s' % (c.name, name), it, f))
                     continue
-                bad.setdefault((it.exc, it.site_func, it.site_text), []).append(('%s.%s' % (c.name, name), it, f))
+                bad.setdefault((it.exc, it.site_func, it.site_text.split(' [')[0]), []).append(('%s.%s' % (c.name, name), it, f))
             report.ok('C08-R1', key(c.qname, name, 'remaining raise paths end in None / a value'), f.loc())
+        # every call inside the NDEF reader methods, one by one (the witness chain of an item shows one path only; a call whose
+        # TagCommandError reaches the same raise site as another call must not hide behind it)
+        nctx = Ctx(ndef_cls, c)
+        esc = Escape(prog, res, boundaries=BOUND, implicit=implicit)
+        root = prog.lookup(ndef_cls, '_read_ndef_data')
+        work, seen_f = [root] if isinstance(root, FuncInfo) else [], set()
+        while work:
+            mf = work.pop()
+            if mf.qname in seen_f:
+                continue
+            seen_f.add(mf.qname)
+            for x in walk_no_nested(mf.node):
+                if not (isinstance(x, ast.Call) or (isinstance(x, ast.Subscript) and isinstance(x.ctx, ast.Load))):
+                    continue
+                leaking = [it for e, it in esc.of_stmt(mf, nctx, x).items()
+                           if prog.exc_is_sub(it.exc, 'nfc.tag.TagCommandError') and not esc._handled_lexically(mf, x, it.exc)]
+                if not leaking:
+                    continue
+                callee = None
+                if isinstance(x, ast.Call) and isinstance(x.func, ast.Attribute) and norm(x.func.value) == 'self':
+                    callee = prog.lookup(ndef_cls, x.func.attr)
+                if isinstance(callee, FuncInfo) and '.NDEF.' in callee.qname:
+                    work.append(callee)         # reported at the deepest NDEF method frame
+                    continue
+                for it in leaking:
+                    n_sites[0] += 1
+                    where = '%s: %s' % (mf.qname.replace('nfc.', '', 1), head(x))
+                    bad.setdefault((it.exc.split('.')[-1], 'unguarded in', where), []).append(('%s.ndef' % c.name, it, mf))
     report.floor('C08-R1 entries', n, 200)
     # activation
     f = prog.func('nfc.tag.activate')
-    esc = Escape(prog, res, boundaries=BOUND)
+    esc = Escape(prog, res, boundaries=BOUND, implicit=implicit)
     for it in items_sorted(esc.esc(f, Ctx(None))):
         if it.exc == 'OSError':
             continue
-        bad.setdefault((it.exc, it.site_func, it.site_text), []).append(('nfc.tag.activate', it, f))
+        bad.setdefault((it.exc, it.site_func, it.site_text.split(' [')[0]), []).append(('nfc.tag.activate', it, f))
     report.ok('C08-R1', key('nfc.tag.activate', 'remaining raise paths end in None / a tag'), f.loc(),
               detail='%d functions analysed' % len(esc.analysed))
     report.stats['activate_cone_functions'] = len(esc.analysed)
@@ -235,6 +274,11 @@ for _t in ("raise ValueError('invalid command data length')", "raise ValueError(
                 ('nfc.tag.tt4.Type4BTag.__init__', 'self._extended_length_support = False')])
 
 
+triage.add('C08', 'C08-R1', key('struct.error', 'raised in nfc.tag.tt3.Type3Tag.__init__', "unpack('>H', target.sensf_res[17:19])"),
+           'a well-framed SENSF_RES is 17 byte or, with the system code, 19 byte (NFC Digital 6.6): behind len(sensf_res) > 17 the slice holds 2 byte',
+           [('nfc.tag.tt3.Type3Tag.__init__', lambda f: any(isinstance(i, ast.If) and norm(i.test) == 'len(target.sensf_res) > 17' and
+                                                            any("target.sensf_res[17:19]" in norm(x) for x in i.body) for i in ast.walk(f.node)))])
+
 MUTANTS = [
     ('tt2-read-tlv-unguarded', 'nfc.tag.tt2', """                try:
                     tlv = read_tlv(tag_memory, offset, skip_bytes)
@@ -306,6 +350,29 @@ def activate_tt1""", 'C08-R1'),
     ('tt1-segment-short-accepted', 'nfc.tag.tt1', """        if len(rsp) < 129:
             raise Type1TagCommandError(RESPONSE_ERROR)
         return rsp[1:129]""", """        return rsp[1:129]""", 'C08-R3'),
+    ('tt1-control-tlv-length-untested', 'nfc.tag.tt1', """                    if tlv_l == 3:
+                        lock_bytes = get_lock_byte_range(tlv_v)
+                        skip_bytes.update(range(*lock_bytes.indices(0x800)))
+                    else:
+                        log.debug("lock tlv has wrong length")""", """                    lock_bytes = get_lock_byte_range(tlv_v)
+                    skip_bytes.update(range(*lock_bytes.indices(0x800)))""", 'C08-R'),
+    ('tt2-control-tlv-length-weaker', 'nfc.tag.tt2', """                    if tlv_l == 3:
+                        rsvd_bytes = get_rsvd_byte_range(tlv_v)""", """                    if tlv_l <= 3:
+                        rsvd_bytes = get_rsvd_byte_range(tlv_v)""", 'C08-R'),
+    ('tt3-short-response-unchecked', 'nfc.tag.tt3', """        if len(rsp) < 2:
+            log.debug("insufficient response data")
+            raise Type3TagCommandError(RSP_LENGTH_ERROR)
+""", "", 'C08-R1'),
+    ('tt3-status-flags-off-by-one', 'nfc.tag.tt3', "        if check_status and len(rsp) < 12:", "        if check_status and len(rsp) < 10:", 'C08-R1'),
+    ('tt3-attribute-block-length', 'nfc.tag.tt3', "        if len(data) != 1 + len(block_list) * 16:", "        if len(data) < 1:", 'C08-R'),
+    ('ats-tb-index-off-by-one', 'nfc.tag.tt4', "            if rats_res[1] & 0x20 and len(rats_res) > tb_index:", "            if rats_res[1] & 0x20 and len(rats_res) >= tb_index:", 'C08-R1'),
+    ('ats-length-untested', 'nfc.tag.tt4', """        if len(rats_res) > 1:
+            fsci = rats_res[1] & 0x0F""", """        if rats_res is not None:
+            fsci = rats_res[1] & 0x0F""", 'C08-R1'),
+    ('cc-unpack-unbounded', 'nfc.tag.tt4', """unpack(">BHHB9p", capabilities[0:15])""", """unpack(">BHHB9p", capabilities)""", 'C08-R1'),
+    ('cc-padding-one-short', 'nfc.tag.tt4', '            capabilities += (15-len(capabilities)) * b"\\0"  # for unpack', '            capabilities += (14-len(capabilities)) * b"\\0"  # for unpack', 'C08-R'),
+    ('cclen-length-weaker', 'nfc.tag.tt4', "            if not (cclen and len(cclen) == 2):", "            if not (cclen and len(cclen) >= 1):", 'C08-R1'),
+    ('tt2-nak-test-order', 'nfc.tag.tt2', "        if len(data) == 1 and data[0] & 0xFA == 0x00:", "        if data[0] & 0xFA == 0x00 and len(data) == 1:", 'C08-R1'),
 ]
 MUTANTS = [m for m in MUTANTS if m[4] != 'C08-NONE']
 
